@@ -2739,6 +2739,10 @@ int mergesrvconf(struct clsrvconf *dst, struct clsrvconf *src) {
             dst->retrycount = src->retrycount;
         dst->blockingstartup = src->blockingstartup;
         dst->sni = src->sni;
+        if (src->addttl)
+            dst->addttl = src->addttl;
+        if (src->loopprevention != UCHAR_MAX)
+            dst->loopprevention = src->loopprevention;
     }
     dst->shallow = 0;
     return 1;
